@@ -7,6 +7,9 @@ import PyamgV.Proofs.C20PoissonDom
 import PyamgV.Proofs.C20PoissonMat
 import PyamgV.Proofs.C20Diffusion
 import PyamgV.Proofs.C20Spd
+import PyamgV.Proofs.ExtC20ElasticPD
+import PyamgV.Proofs.ExtC20Twin
+import PyamgV.Proofs.ExtC20SpectrumReal
 
 /-! # C20 — gallery operators equal the discretisations they document
 
@@ -54,6 +57,82 @@ restate poisson_offdiag_nonpos := PyamgV.C20.poisson_offdiag_nonpos
 /-- matrix level: the diagonal entry of every row is `2N` resp. `3^N - 1` -/
 restate poisson_diag := PyamgV.C20.poisson_diag
 
+/-! ### extension E21: Kronecker structure, strict definiteness, closed-form spectrum
+`qf n M x = Σ_{p<n} x_p Σ_{q<n} M p q x_q`, `mv n M x p = Σ_{q<n} M p q x_q` on an entry function `M`;
+`tri = tridiag(-1,2,-1)`, `triJ = tridiag(1,1,1)`; `prod grid` = number of grid points. -/
+/-- `xᵀ A x` read off the triples is the quadratic form of the entry function (all triples inside the matrix) -/
+restate qform_is_entry_form := PyamgV.C20.qform_eq_qf
+/-- `xᵀ A x = Σ_p x_p (A x)_p` for the readings `qform`, `rowdot` -/
+restate qform_is_sum_rowdot := PyamgV.C20.qform_eq_sum_rowdot
+/-- **Kronecker-sum structure of the FD matrix of the model**: on the grid `g :: gs`, index `p = c * prod gs + r`,
+`A (cP+r) (c'P+r') = [r = r'] tri c c' + [c = c'] A_gs r r'` -/
+restate poisson_fd_kron := PyamgV.C20.poissonFD_kron
+/-- 1-D energy identity: `yᵀ tridiag(-1,2,-1) y = y_0² + Σ_edges (y_c - y_{c+1})² + y_last²` (edges + the two
+Dirichlet boundary terms) -/
+restate poisson_energy_1d := PyamgV.C20.qf_tri_sos
+/-- N-D energy identity (recursive): `xᵀ A x = Σ_lines (1-D energy along the first axis) + Σ_slices xᵀ A_rest x` -/
+restate poisson_fd_energy := PyamgV.C20.fd_qf_cons
+/-- **the FD Poisson matrix is positive definite** in every dimension `≥ 1`, on every grid shape:
+`xᵀ A x ≥ 0`, and `= 0` only if `x` vanishes on the whole grid -/
+restate poisson_fd_posdef := PyamgV.C20.poissonFD_posdef
+/-- `xᵀ A x > 0` for `x ≠ 0` -/
+restate poisson_fd_qform_pos := PyamgV.C20.poissonFD_qform_pos
+/-- **the FD Poisson matrix is nonsingular**: `A x = 0` on the grid forces `x = 0` on the grid -/
+restate poisson_fd_nonsingular := PyamgV.C20.poissonFD_nonsingular
+/-- energy identity of any symmetric matrix: `xᵀ M x = Σ_p rowsum_p x_p² + ½ Σ_{p,q} (-M p q)(x_p - x_q)²` -/
+restate dominant_energy := PyamgV.C20.qf_energy
+/-- FE matrix of the model: `A = 3^N I - W`, `W p q` = number of offsets in `{-1,0,1}^N` carrying `p` to `q` -/
+restate poisson_fe_split := PyamgV.C20.fe_split
+/-- **Kronecker-product structure of the FE coupling pattern**: `W_{g::gs} = tridiag(1,1,1) ⊗ W_gs` -/
+restate poisson_fe_kron := PyamgV.C20.wsum_kron
+/-- **the FE Poisson matrix is positive definite** in every dimension `≥ 1`, on every grid shape -/
+restate poisson_fe_posdef := PyamgV.C20.poissonFE_posdef
+/-- **the FE Poisson matrix is nonsingular** -/
+restate poisson_fe_nonsingular := PyamgV.C20.poissonFE_nonsingular
+/-- what the front end `poisson grid type` returns (FD and FE) is positive definite and nonsingular: with
+`poisson_symm`, `poisson_offdiag_nonpos`: a nonsingular symmetric M-matrix -/
+restate poisson_posdef := PyamgV.C20.poisson_posdef
+
+/-- Chebyshev `U_j(c)` by recurrence over any commutative ring; 1-D residual form for EVERY `c`:
+`(tridiag(-1,2,-1) v)_j = (2 - 2c) v_j + [j = n-1] U_n(c)`, `v_j = U_j(c)` -/
+restate cheb_residual_1d := PyamgV.C20.mv_triR_cheb
+/-- **1-D spectrum, algebraic form** (any commutative ring): for every root `c` of `U_n`, `v_j = U_j(c)` is an
+eigenvector of `tridiag(-1,2,-1)` of size `n` for `2 - 2c` -/
+restate cheb_eigen_1d := PyamgV.C20.mv_triR_cheb_root
+/-- eigenvectors of a Kronecker sum `T ⊗ I + I ⊗ M'`: products, for the sum of the eigenvalues (any commutative ring) -/
+restate kron_sum_eigen := PyamgV.C20.mv_kron_eigen
+/-- eigenvectors of a Kronecker product `T ⊗ M'`: products, for the product of the eigenvalues -/
+restate kron_prod_eigen := PyamgV.C20.mv_kronprod_eigen
+/-- the model's matrix acting on vectors over a field `K` of characteristic zero (`rowdotK`) is `rowdot` for `K = Rat` -/
+restate rowdotK_is_rowdot := PyamgV.C20.rowdotK_rat
+/-- **1-D Poisson spectrum on the model's matrix**: for every root `c` (in any field of characteristic zero) of
+`U_n`: `(A v)_j = (2 - 2c) v_j`, `v_j = U_j(c)` -/
+restate poisson_1d_spectrum := PyamgV.C20.poisson1d_spectrum
+/-- **tensor-product lift, FD**: products of 1-D eigenvectors (any, not only Chebyshev) are eigenvectors of the
+N-D matrix of the model for the sum of the 1-D eigenvalues -/
+restate poisson_fd_tensor_eigen := PyamgV.C20.poissonFD_tensor_eigen
+/-- **closed-form spectrum, FD, every dimension / grid**: roots `c_i` of `U_{g_i}` give the eigenpair
+`(Σ_i (2 - 2 c_i), v(p) = Π_i U_{coords_i p}(c_i))` -/
+restate poisson_fd_spectrum := PyamgV.C20.poissonFD_spectrum
+/-- these eigenvectors are not zero: `v(0) = 1` -/
+restate poisson_spectrum_nonzero := PyamgV.C20.poissonFD_spectrum_nonzero
+/-- **tensor-product lift, FE**: eigenvalue `3^N - Π_i (3 - l_i)` -/
+restate poisson_fe_tensor_eigen := PyamgV.C20.poissonFE_tensor_eigen
+/-- **closed-form spectrum, FE**: eigenvalue `3^N - Π_i (1 + 2 c_i)` -/
+restate poisson_fe_spectrum := PyamgV.C20.poissonFE_spectrum
+/-- over the reals: `cos(k π / (n+1))`, `1 ≤ k ≤ n`, is a root of `U_n` (`U_j(cos θ) sin θ = sin((j+1) θ)`) -/
+restate cheb_root_cos := PyamgV.C20.chebU_root_cos
+/-- the documented closed form over the reals, 1-D: `λ_k = 2 - 2 cos(k π / (n+1))` -/
+restate poisson_1d_spectrum_real := PyamgV.C20.poisson1d_spectrum_real
+/-- ... N-D FD: `Σ_i (2 - 2 cos(k_i π / (g_i + 1)))` for every multi-index `1 ≤ k_i ≤ g_i` -/
+restate poisson_fd_spectrum_real := PyamgV.C20.poissonFD_spectrum_real
+/-- ... N-D FE: `3^N - Π_i (1 + 2 cos(k_i π / (g_i + 1)))` -/
+restate poisson_fe_spectrum_real := PyamgV.C20.poissonFE_spectrum_real
+/-- executable rational form (what the driver evaluates: `chebUQ`, `tvecQ`, `eigQ`, `rowdot`), FD and FE -/
+restate poisson_spectrum_rat := PyamgV.C20.poisson_spectrum_rat
+/-- executable 1-D residual form for every rational `c` -/
+restate poisson_1d_residual_rat := PyamgV.C20.poisson1d_residual_rat
+
 /-! ## diffusion stencils -/
 /-- FE stencil sums to zero for every `eps` and every pair `(C, S)` -/
 restate diffusion2d_fe_sum_zero := PyamgV.C20.diffusion2dFE_sum
@@ -88,6 +167,18 @@ restate q12d_dirichlet_inner_rows := PyamgV.C20.q12dCore_dirichlet_inner
 /-- such rows have no entry in a column of a constrained node (they are the rows not coupled to the boundary) -/
 restate q12d_inner_uncoupled := PyamgV.C20.uncoupled_of_inner
 
+/-! ### extension E21: strict definiteness of the Dirichlet operator -/
+/-- a zero-energy displacement of a rectangle (`mu > 0`, `lame + mu > 0`) that vanishes at the two lower nodes
+vanishes at the two upper nodes -/
+restate q12d_local_bottom_zero := PyamgV.C20.kloc_bottom_zero
+/-- **the Dirichlet stiffness matrix is positive definite**: `xᵀ A x = 0` only if `x` vanishes on all `ndof`
+degrees of freedom (every grid shape, positive spacings, `mu > 0`, `lame + mu > 0`) -/
+restate q12d_dirichlet_definite := PyamgV.C20.q12dCore_dirichlet_definite
+/-- `E > 0`, `-1 < nu < 1/2` give `mu > 0`, `lame + mu > 0` -/
+restate q12d_lame_pos := PyamgV.C20.lame_pos
+/-- what `q12d(..., dirichlet_boundary=True)` returns is positive definite -/
+restate q12d_dirichlet_posdef := PyamgV.C20.q12d_dirichlet_posdef
+
 /-! ## non-vacuity -/
 open PyamgV.C20 in
 example : (∃ T, stencilDense [3] [-1, 2, -1] [4] = .ok T) :=
@@ -103,5 +194,16 @@ example : (4 / 5 : Rat) * (4 / 5) + (3 / 5) * (3 / 5) = 1 := by norm_num
 open PyamgV.C20 in
 example : (q12dCore 1 2 1 1 1 1 false).A.length = 128 ∧ (q12dCore 1 2 1 1 1 1 false).B.length = 12 := by
   simp [q12dCore, assemble, elems, elemTriples, modeRows]
+
+open PyamgV.C20 in
+example : List.Forall₂ (fun g c => chebUQ c g = 0) [2, 3, 5] [(1 / 2 : Rat), 0, -1 / 2] := by
+  refine .cons ?_ (.cons ?_ (.cons ?_ .nil)) <;> (simp only [chebUQ, chebPair]; norm_num)
+open PyamgV.C20 in
+example : (q12dCore 3 3 1 2 1 1 true).ndof = 8 := by decide
+open PyamgV.C20 in
+example : ∃ T, poisson [2, 3] true = some T := ⟨_, rfl⟩
+open PyamgV.C20 in
+example : List.Forall₂ (fun g k => 1 ≤ k ∧ k ≤ g) [4, 7] [4, 1] := by
+  refine .cons ?_ (.cons ?_ .nil) <;> decide
 
 end PyamgV.Props.C20
